@@ -2,6 +2,7 @@ package c16
 
 import (
 	"math/rand"
+	"os"
 	"strings"
 )
 
@@ -10,7 +11,7 @@ import (
 // ---------------------------------------------------------------------------------------------
 
 type c16In struct {
-	Family string  `json:"family"` // "exhaustive" | "random"
+	Family string  `json:"family"`         // "exhaustive" | "random"
 	Body   *Node   `json:"body,omitempty"` // position / z-index / opacity of <body>
 	Roots  []*Node `json:"tree"`
 	HTML   string  `json:"html"`
@@ -123,6 +124,11 @@ func randomCase(r *rand.Rand, o genOpts) c16In {
 		} else if o.effects && r.Intn(100) < 10 {
 			nd.Op = pick(r, 0.25, 0.5, 0.75)
 		}
+		// z-index on a non-positioned box must be ignored, also when the box forms a context
+		// through opacity / transform / overflow (it is then painted at level 0)
+		if nd.Pos == "" && r.Intn(100) < 30 {
+			nd.Z = ip(pick(r, -1, 1, 2))
+		}
 		nd.W = 10 * (5 + r.Intn(9))
 		nd.H = 10 * (3 + r.Intn(5))
 		nd.ML = 5 * (r.Intn(15) - 4)
@@ -204,23 +210,31 @@ func anyHoisted(n *Node) bool {
 	return false
 }
 
-// sanitize keeps two feature combinations out of the random documents, because the unchanged tree
-// paints them wrongly (genuine defects, witnesses in findings/C16, see notes/C16.md):
+// sanitize keeps one feature combination out of the random documents, because the tree paints it
+// wrongly (genuine defect F1, open; witnesses findings/C16/deferred-float-*.json, see notes/C16.md):
+// a float that sits in a line box and does not fit is re-inserted at the end of the line by the
+// layout, outside any inline box it was in, so "tree order" ties between it (or positioned boxes
+// inside it) and later positioned siblings are broken the wrong way, and it leaves the context of a
+// positioned / opacity span.  Floats whose parent has inline content are therefore neither
+// positioned / context-forming nor contain such boxes, and positioned / opacity spans contain no
+// floats (the float property is dropped otherwise).
 //
-//	F1 (findings/C16/deferred-float-tree-order.json): a float that sits in a line box and does not
-//	   fit is re-inserted at the end of the line by the layout, so "tree order" ties between it (or
-//	   positioned boxes inside it) and later positioned siblings are broken the wrong way.  Floats
-//	   whose parent has inline content are therefore neither positioned / context-forming nor
-//	   contain such boxes (the float property is dropped otherwise).
-//	F2 (findings/C16/descendant-outline-unclipped.json): outlines of the plain in-flow descendants
-//	   of an overflow:hidden box are painted in that box's step 10, outside its clip.  Such
-//	   descendants get no outline.
+// (F2, outlines of descendants of an overflow:hidden box, and F3, z-index on non-positioned
+// context-forming boxes, were excluded here until they were fixed in /repo - commits b5dd602 and
+// e93eca9; both combinations are generated now.)
+//
+// C16_ALLOW=F1 (development only) lets the random generator produce the excluded combination, to
+// validate a repair of /repo with the unchanged oracle.
+var allow = os.Getenv("C16_ALLOW")
+
+func allowed(f string) bool { return strings.Contains(allow, f) }
+
 func sanitize(roots []*Node) {
-	var rec func(kids []*Node, parentText bool, underOv bool, hoistedSpan bool)
-	rec = func(kids []*Node, parentText bool, underOv bool, hoistedSpan bool) {
+	var rec func(kids []*Node, parentText bool, hoistedSpan bool)
+	rec = func(kids []*Node, parentText bool, hoistedSpan bool) {
 		for _, c := range kids {
 			// F1 again: the deferred float leaves its span, and with it the span's context
-			if hoistedSpan && c.floated() {
+			if hoistedSpan && c.floated() && !allowed("F1") {
 				c.Flt = ""
 			}
 		}
@@ -233,27 +247,17 @@ func sanitize(roots []*Node) {
 				}
 			}
 			for _, c := range kids {
-				if inlineCtx && c.floated() && anyHoisted(c) {
+				if inlineCtx && c.floated() && anyHoisted(c) && !allowed("F1") {
 					c.Flt = ""
 					changed = true
 				}
 			}
 		}
 		for _, c := range kids {
-			ownCtx := hoistedW(c) || c.floated() || c.disp() == "iblock"
-			if underOv && !ownCtx {
-				c.Ol = 0
-			}
-			next := underOv
-			if c.Ov {
-				next = true
-			} else if ownCtx {
-				next = false
-			}
-			rec(c.Kids, c.Text != "", next, c.disp() == "inline" && (hoistedSpan || hoistedW(c)))
+			rec(c.Kids, c.Text != "", c.disp() == "inline" && (hoistedSpan || hoistedW(c)))
 		}
 	}
-	rec(roots, false, false, false)
+	rec(roots, false, false)
 }
 
 // tiesCase: 14-24 overlapping positioned siblings whose z-indexes come from a set of two or three
